@@ -51,8 +51,10 @@ ASSUMPTIONS["C07"] = [
     "1e-9 of the unit normal recomputed from the output corners (faces with height < 1e-3*scale are not judged)",
     "process(validate=True) may reverse faces (fix_normals): corners are then compared as an unordered triple and face "
     "normals up to sign",
-    "split(only_watertight=True) documents a repair attempt: extra faces appended after the source faces of a part are "
-    "tolerated there (and nowhere else)",
+    "split(only_watertight=True) documents a repair attempt ('will attempt to repair single triangle or quad holes') and "
+    "submesh(only_watertight=True) runs the same code even with repair=False: faces appended after the source faces of a "
+    "part are tolerated there (and nowhere else); the source faces of such a part are the connected component (faces "
+    "sharing an edge that occurs exactly twice) of its first face, resp. the sequence item",
     "update_vertices is only called with masks that keep every referenced vertex (the forms in-tree callers use)",
 ]
 
@@ -271,7 +273,6 @@ class Opt:
         self.tol = 0.0  # corner tolerance (0 = bit exact)
         self.perm = False  # corners may be reordered (process(validate=True))
         self.order = "exact"  # exact (want_src) | increasing | any
-        self.extra_tail = False  # unmatched faces after the matched ones are tolerated
         self.no_merge = True  # two source vertices must not end on one output vertex
         self.merge = None  # dict(dv, duv, dn, merge_tex, merge_norm) for merging operations
         self.pool = None  # set of already used source faces shared between the parts of one split
@@ -314,7 +315,7 @@ def mergeable(S, r, s, mp):
 
 def track(S, oV, oF, fo, vo, want_src, opt, sigp):
     """Map every output face to a source face and check geometry, order and data. Returns dict(src, perm, rel,
-    unambiguous, extra)."""
+    unambiguous)."""
     nfo = len(oF)
     oT = oV[oF] if nfo else np.zeros((0, 3, 3))
     if want_src is not None:
@@ -332,7 +333,6 @@ def track(S, oV, oF, fo, vo, want_src, opt, sigp):
     used = opt.pool if opt.pool is not None else set()
     src, prm = [], []
     unambiguous = True
-    extra = 0
     last = -1
     for j in range(nfo):
         # ---- stage 1: geometry
@@ -359,9 +359,6 @@ def track(S, oV, oF, fo, vo, want_src, opt, sigp):
             if want_src is not None:
                 i = int(want_src[j])
                 raise Violation(sigp + "|triangle_moved", f"output face {j} (source face {i}) has corners {oT[j].tolist()}, source corners {S.T[i].tolist()}")
-            if opt.extra_tail:
-                extra = nfo - j
-                break
             raise Violation(sigp + "|triangle_not_in_source", f"output face {j} with corners {oT[j].tolist()} matches no source face")
         # ---- stage 2: per-face data
         c2 = c1
@@ -462,7 +459,7 @@ def track(S, oV, oF, fo, vo, want_src, opt, sigp):
                         ok = any(np.abs(S.V[r] - S.V[q]).max() <= lim for r in h for q in rel[k])
                 if not ok:
                     raise Violation(_dsig(sigp, name, "misaligned", opt), f"output vertex {k} was made from source vertices {sorted(rel[k])} but carries {name} = {np.asarray(arr[k]).tolist()} of source vertex/vertices {sorted(h)[:4]}")
-    return {"src": src, "perm": prm, "rel": rel, "unambiguous": unambiguous, "extra": extra}
+    return {"src": src, "perm": prm, "rel": rel, "unambiguous": unambiguous}
 
 
 def qkey(X, digits):
@@ -685,11 +682,9 @@ def b_ops(case, ctx):
             check_merge(S, res, oV, vo, opt.merge, sigp, labels)
         if post is not None:
             post(res, oV, oF, fo, vo)
-        if attach["warm"] and name != "constructor" and isinstance(out, trimesh.Trimesh) and not res["extra"]:
+        if attach["warm"] and name != "constructor" and isinstance(out, trimesh.Trimesh):
             derived_colors(out, S, sigp)
         carried_labels(S, fo, vo, labels)
-        if res["extra"]:
-            labels.append("effect:filled_extra_faces")
         if res["src"] != list(range(S.nf)) or len(oV) != S.nv or not np.array_equal(oF, S.F):
             changed = True
     for fn in finals:
@@ -979,8 +974,7 @@ def op_submesh(S, mesh, op, rs, labels, sigp):
     def make_post(idxs):
         def post(res, oV, oF, fo, vo):
             used = sum(len({int(v) for i in idx for v in S.F[i]}) for idx in idxs)
-            if not res["extra"]:
-                check(len(oV) == used, sigp + "|vertex_count", f"{len(oV)} vertices for {used} referenced source vertices")
+            check(len(oV) == used, sigp + "|vertex_count", f"{len(oV)} vertices for {used} referenced source vertices")
 
         return post
 
@@ -1059,6 +1053,31 @@ class _PrefixVisual:
         return self._v.uv
 
 
+def face_components(F):
+    """components of the face graph in which two faces are adjacent when they share a sorted edge that occurs exactly
+    twice in the whole mesh (the definition of Trimesh.face_adjacency, which split() documents to use; it is checked
+    against trimesh by C05)"""
+    occ = {}
+    for i, f in enumerate(F.tolist()):
+        for a, b in ((f[0], f[1]), (f[1], f[2]), (f[2], f[0])):
+            occ.setdefault((a, b) if a <= b else (b, a), []).append(i)
+    parent = list(range(len(F)))
+
+    def find(a):
+        while parent[a] != a:
+            parent[a] = parent[parent[a]]
+            a = parent[a]
+        return a
+
+    for fs in occ.values():
+        if len(fs) == 2 and fs[0] != fs[1]:
+            parent[find(fs[0])] = find(fs[1])
+    comp = {}
+    for i in range(len(F)):
+        comp.setdefault(find(i), set()).add(i)
+    return [frozenset(c) for c in comp.values()]
+
+
 def op_split(S, mesh, op, rs, labels, sigp):
     ow = bool(op.get("only_watertight"))
     labels.append(f"split:only_watertight={ow}")
@@ -1067,8 +1086,28 @@ def op_split(S, mesh, op, rs, labels, sigp):
     parts = list(parts)
     pool = set()
     outs = []
+    comps = face_components(S.F)
+    comp_of = {i: c for c in comps for i in c}
+    seen = []
+
+    def post(res, oV, oF, fo, vo):
+        seen.append((frozenset(res["src"]), res["unambiguous"]))
+
     for part in parts:
-        outs.append((part, None, Opt(order="any", extra_tail=ow, pool=pool), None))
+        if not ow:
+            outs.append((part, None, Opt(order="any", pool=pool), post))
+            continue
+        # only_watertight: split documents a repair attempt, which appends faces after those of the component (and
+        # gives them the colour of the last face). The component is found through the first face of the part.
+        pF = np.array(part.faces)
+        check(len(pF) > 0 and _edge_watertight(pF), sigp + "|only_watertight|part_not_watertight", f"returned part with faces {pF[:6].tolist()} is not watertight")
+        t0 = np.array(part.vertices)[pF[0]]
+        sizes = sorted({len(comp_of[i]) for i in S.geom.get(_b(t0), []) if len(comp_of[i]) <= len(pF)})
+        check(len(sizes) > 0, sigp + "|triangle_not_in_source", f"first face of a returned part, corners {t0.tolist()}, matches no source face")
+        n = sizes[-1]
+        if len(pF) > n:
+            labels.append("effect:filled_extra_faces")
+        outs.append((_Prefix(part, n), None, Opt(order="any", pool=pool), post))
     if len(parts) > 1:
         labels.append("effect:split_multi")
 
@@ -1086,6 +1125,18 @@ def op_split(S, mesh, op, rs, labels, sigp):
             check(got == want, sigp + "|concatenate|triangle_multiset", f"concatenate(split()) holds {len(got)} triangles, source {len(want)}; multisets differ")
             labels.append("split:concatenated")
 
+    def final():
+        # every part is one whole component of the face graph
+        if all(u for _, u in seen):
+            got = [s_ for s_, _ in seen]
+            want = set(comps) if not ow else None
+            for g in got:
+                check(g in set(comps), sigp + "|components", lambda: f"a part holds source faces {sorted(g)[:12]}, which is not a component of the face graph {sorted(map(sorted, comps))[:6]}")
+            if want is not None:
+                check(set(got) == want and len(got) == len(want), sigp + "|components", lambda: f"parts are source faces {sorted(map(sorted, got))[:6]}, face components are {sorted(map(sorted, comps))[:6]}")
+            labels.append("split:components_checked")
+
+    outs.append(final)
     return outs
 
 
@@ -1318,5 +1369,11 @@ REQUIRED_CLASSES["C07"] = [
     "carried:face_normals",
     "carried:vertex_normals",
     "split:concatenated",
+    "split:components_checked",
     "effect:split_multi",
+    "effect:filled_extra_faces",
+    "submesh:append_multi",
+    "vmask:int_repeats",
+    "mask:bool_drop_few",
+    "dirt:dupv_straddle",
 ]
